@@ -278,6 +278,17 @@ def r27_7(ctx, rep):
                path=cfg.describe(w) if w else "")
 
 
+@SPEC.rule(
+    "R27.8",
+    "what a file parses to does not depend on the files parsed before it: no function of parser.py keeps state in a module-level or "
+    "class-level container or counter — a declaration counter shared by all ASTListener instances numbers a file's symbols after those of "
+    "the files parsed earlier, and the variable order of the flat model follows the file order",
+)
+def r27_8(ctx, rep):
+    from .c25 import module_state_free
+    module_state_free(ctx, rep, "R27.8", PARSER, "the parser module")
+
+
 # -- seeded variants ---------------------------------------------------------
 from ._mut import delete_stmt_where, replace_in_func  # noqa: E402
 
